@@ -19,8 +19,8 @@ CFG = {
             "than the screen, every root size 0..5 x 0..4 on a 4x3 screen, surfaces with more than 65535 cells) painted on screens <= 6x4 through the hook "
             "that evaluates App.Run's render call; run = the same families as the root surface of one frame of the real App.Run on a fake console; "
             "bare = random trees through the bare recursive render. distinct = distinct op line.",
-    "trusted_base": ["the wrap scanners (C16), bufio.Scanner and Characters are parameters: the harness passes the lines the real "
-                     "scanners produce for the constraint each leaf receives; theorems hold for every list of lines",
+    "trusted_base": ["the wrap scanners (C16), text.hardLines (hook VerifC14HardLines; modelled and proved a split in C16) and Characters are parameters: "
+                     "the harness passes the lines the real scanners produce for the constraint each leaf receives; theorems hold for every list of lines",
                      "hooks vxfw.VerifC14Render / VerifC14RenderRoot (call the unexported Surface.render; facts_run_render ties the latter's window "
                      "expression to the one in App.Run, and the run stream drives App.Run itself), VerifC14AppVaxis and the C11 snapshot hook",
                      "sort.Slice is modelled as a stable sort (it is an insertion sort below 12 elements); trees have < 12 children",
@@ -38,12 +38,16 @@ CFG = {
                   "painter's algorithm of Spec.Surface: every surface at parent origin + offset, clipped to itself and every ancestor, the root included, and "
                   "the screen, children after parents in z-order with ties in child order; F114 is fixed), run_frame_paints (Clear + render), render_bare_paints "
                   "(the recursive render without the root window), zorder_is_spec, render_clip, render_last_wins, paint_structure, child_window_clip. "
-                  "Witness/F39-F42, F114 prove that the uint16 / non-strict / un-clipped variants (the code before the fixes) fail.",
+                  "Round 3: src_guards_strict now also states that each Text/RichText draw function allocates NewSurface(size.Width, size.Height) (interpreted arguments), "
+                  "facts_ellipsis_cond. Witness/F39-F42, F114 prove that the uint16 / non-strict / un-clipped variants (the code before the fixes) fail.",
     "level_note": "Tie: Gen/SurfaceFacts.lean regenerated each run. Used by the model: int vs uint16 length and index, >= vs > guards, which window App.Run "
-                  "renders into (renderRoot), which widgets have the bounded-constraint panic. Pinned by theorems that stop compiling when the source changes "
+                  "renders into (renderRoot), which widgets have the bounded-constraint panic, the size arguments of every NewSurface call incl. the four Text/RichText "
+                  "functions (TextMode.sz; round 3), the conjuncts of the ellipsis condition of the two hard-wrap loops (EllAtom; round 3: the model followed the F316 "
+                  "fix without an edit). Pinned by theorems that stop compiling when the source changes "
                   "(src_arith_exact, src_guards_strict, facts_surface, facts_run_render, facts_layout, widget_inventory_complete, and one Props.C14Facts theorem "
                   "per function for the alpha-normalised statement skeletons of Surface.render, App.Run's frame clause, Text/RichText Draw/drawSoftwrap/"
-                  "findContainerSize, Center.Draw, Button.Draw, TextField.Draw). Validated by correspondence only: that the Lean transcription of those bodies "
+                  "findContainerSize, Center.Draw, Button.Draw, TextField.Draw, text.hardLines; the printer normalises a<b/b>a, x++/x+=1/x=x+1 and the operand order of "
+                  "==, && and || between pure operands, so those rewrites do not alarm). Validated by correspondence only: that the Lean transcription of those bodies "
                   "means what the Go statements mean (the skeleton pins fix *which* statements were transcribed, the differential run compares behaviour), and "
                   "Dynamic's placement of its items. Modelled-not-verified: widget content placement (which grapheme where) is compared model vs code but is "
                   "outside C14; Dynamic's scroll logic is C19's.",
